@@ -195,7 +195,7 @@ func genPEMData(rt *rapid.T) ([]byte, string) {
 func TestPEMDecodeEncode(t *testing.T) {
 	sec := vk.Sec(t.Name())
 	nk, np := len(keyObjects()), len(pubObjects())
-	vk.Check(t, 2500, 40000, func(rt *rapid.T) {
+	vk.Check(t, 8000, 80000, func(rt *rapid.T) {
 		var c pemCase
 		c.Data, c.Note = genPEMData(rt)
 		c.KeyObj = rapid.IntRange(0, nk-1).Draw(rt, "keyObj")
